@@ -169,6 +169,15 @@ def run_shard(desc):
                     sh.evaluations += 1
                     if mult >= 4:
                         sh.nontrivial += 1
+                # the documented Busing-Levy construction in python (orient_BL) and the C fast path (quickorient with the cached
+                # BT matrix) must give the same matrix for the same indexed pair
+                from ImageD11 import unitcell as _ucm, cImageD11 as _cI
+                ubi_bl, ub_bl = _ucm.orient_BL(uc.B, np.array(h1, float), np.array(h2, float), g1, g2)
+                BT = _ucm.BTmat(np.array(h1, float), np.array(h2, float), uc.B, np.linalg.inv(uc.B))
+                ubi_q = np.zeros((3, 3)); ubi_q[0] = g1; ubi_q[1] = g2
+                _cI.quickorient(ubi_q, BT)
+                if np.abs(ubi_q - ubi_bl).max() > 1e-9 * np.abs(ubi_bl).max() or not O.lattice_equivalent(ubi_bl, ubi_true):
+                    sh.violation("quickorient-differs-from-orient_BL-or-truth", case, {"quickorient": ubi_q, "orient_BL": ubi_bl})
                 # default nearest-cosine mode
                 uc.orient(r1, g1, r2, g2)
                 bad = check_candidate(uc.UBI, cell, g1, g2)
